@@ -107,6 +107,67 @@ Proof. intros Hm Hex. unfold dfree, conv. rewrite <- (pcost_mweight d false fals
               (wcosts_nonneg mask) Hex) as (x & E & Hx).
   rewrite E. exact Hx. Qed.
 
+(** * the backward pass is attained: [dfree] is the minimum, not just a lower bound *)
+Lemma back_att : forall cs OUT s, (s < 16)%nat ->
+  exists d, length d = length cs /\ pcost16 s d cs = nth s (fst (dfree_aux cs OUT)) 0.
+Proof. induction cs as [|c cs IH]; intros OUT s Hs.
+- exists []. split; [reflexivity|]. cbn [dfree_aux fst pcost]. rewrite nth_repeat. reflexivity.
+- cbn [dfree_aux fst]. rewrite bstep_nth by exact Hs.
+  set (B' := fst (dfree_aux cs (pred OUT))).
+  destruct (Z.le_ge_cases (c s false + nth (nx16 s false) B' 0) (c s true + nth (nx16 s true) B' 0)) as [Hle|Hge].
+  + destruct (IH (pred OUT) (nx16 s false) (nx16_lt s false Hs)) as (d & Ld & Pd).
+    exists (false :: d). split; [cbn [length]; lia|]. rewrite pcost_cons, Pd. fold B'. rewrite Z.min_l by exact Hle. reflexivity.
+  + destruct (IH (pred OUT) (nx16 s true) (nx16_lt s true Hs)) as (d & Ld & Pd).
+    exists (true :: d). split; [cbn [length]; lia|]. rewrite pcost_cons, Pd. fold B'. rewrite Z.min_r by lia. reflexivity.
+Qed.
+
+Lemma dfree_aux_att : forall cs OUT x,
+  Forall (fun c : cost => c 0%nat false = 0) cs ->
+  snd (dfree_aux cs OUT) = Some x ->
+  exists d, length d = length cs /\ existsb (fun b => b) (firstn OUT d) = true /\ pcost16 0%nat d cs = x.
+Proof. induction cs as [|c cs IH]; intros OUT x Hz Hx.
+- cbn in Hx. discriminate.
+- inversion Hz as [|? ? Hc Hcs]; subst. destruct OUT as [|o]; [cbn in Hx; discriminate|].
+  cbn [dfree_aux snd pred] in Hx.
+  assert (H1 : (1 < 16)%nat) by lia.
+  destruct (back_att cs o 1%nat H1) as (d1 & Ld1 & Pd1).
+  assert (Cand : exists d, length d = length (c :: cs) /\ existsb (fun b => b) (firstn (S o) d) = true /\
+                           pcost16 0%nat d (c :: cs) = c 0%nat true + nth 1 (fst (dfree_aux cs o)) 0).
+  { exists (true :: d1). split; [cbn [length]; lia|]. split; [reflexivity|].
+    rewrite pcost_cons. change (nx16 0 true) with 1%nat. rewrite Pd1. reflexivity. }
+  destruct (snd (dfree_aux cs o)) as [y|] eqn:E.
+  + injection Hx as Hx.
+    destruct (Z.le_ge_cases (c 0%nat true + nth 1 (fst (dfree_aux cs o)) 0) y) as [Hle|Hge].
+    * rewrite Z.min_l in Hx by exact Hle. subst x. exact Cand.
+    * rewrite Z.min_r in Hx by lia. subst x.
+      destruct (IH o y Hcs E) as (d & Ld & Ed & Pd).
+      exists (false :: d). split; [cbn [length]; lia|]. split; [cbn [firstn existsb orb]; exact Ed|].
+      rewrite pcost_cons. change (nx16 0 false) with 0%nat. rewrite Pd, Hc. lia.
+  + injection Hx as Hx. subst x. exact Cand.
+Qed.
+
+Lemma wcosts_zero mask : Forall (fun c : cost => c 0%nat false = 0) (wcosts mask).
+Proof. assert (G : forall n mask, (length mask <= n)%nat -> Forall (fun c : cost => c 0%nat false = 0) (wcosts mask)).
+  { induction n as [|n IH]; intros m H.
+    - destruct m; [constructor | cbn in H; lia].
+    - destruct m as [|m0 [|m1 m']]; cbn [wcosts]; try constructor.
+      + unfold wcost. change (out1 0 false) with false. change (out2 0 false) with false. rewrite !andb_false_r. reflexivity.
+      + apply IH. cbn [length] in H. lia. }
+  apply (G (length mask)). lia. Qed.
+
+(** [dfree mask OUT] is attained by an input word with a one among its first OUT bits *)
+Lemma dfree_attained mask OUT n : length mask = (2 * n)%nat -> (1 <= OUT)%nat -> (1 <= n)%nat ->
+  exists d, length d = n /\ existsb (fun b => b) (firstn OUT d) = true /\ mweight mask (conv d) = dfree mask OUT.
+Proof. intros Hm HO Hn. unfold dfree.
+  destruct (snd (dfree_aux (wcosts mask) OUT)) as [x|] eqn:E.
+  - destruct (dfree_aux_att (wcosts mask) OUT x (wcosts_zero mask) E) as (d & Ld & Ed & Pd).
+    rewrite (wcosts_length n) in Ld by exact Hm.
+    exists d. split; [exact Ld|]. split; [exact Ed|].
+    unfold conv. rewrite <- (pcost_mweight d false false false false mask) by lia. exact Pd.
+  - exfalso. destruct mask as [|m0 [|m1 mask']]; cbn [length] in Hm; try lia.
+    destruct OUT as [|o]; [lia|]. cbn in E. discriminate.
+Qed.
+
 (** * a word strictly closer than every word with another payload is the one returned *)
 Lemma closer_returned tb W IN OUT k sc out0 r w :
   (2 <= W <= 6)%nat -> Nat.even IN = true -> (IN / 2 <= 244)%nat -> (OUT <= IN / 2)%nat -> (k <= OUT)%nat ->
